@@ -273,6 +273,11 @@ func evaluate(driver int, src string, guard bool) (cl int, panicText string, sta
 		}
 
 	case drvRepl:
+		// a line is typed by ending it
+		if !strings.HasSuffix(src, "\n") {
+			src += "\n"
+		}
+
 		console.lines = strings.SplitAfter(src, "\n")
 		if n := len(console.lines); n > 0 && console.lines[n-1] == "" {
 			console.lines = console.lines[:n-1]
